@@ -16,7 +16,12 @@ import (
 // through SetString/Sign/Neg in the console code (concrete values).
 
 type bigVal struct {
-	T *smt.Term // unsigned value, any width >= 1
+	T *smt.Term // magnitude, any width >= 1
+	// Neg: the number is negative (nil: non-negative). Only SetString and
+	// Sign look at it: every other modelled operation is used by the
+	// repository on non-negative numbers, or (Bytes) is defined on the
+	// magnitude.
+	Neg *smt.Term
 }
 
 func (p *Path) getBig(v Val) *smt.Term {
@@ -37,7 +42,7 @@ func (p *Path) getBig(v Val) *smt.Term {
 
 func (p *Path) setBig(v Val, t *smt.Term) Val {
 	ptr := v.(Ptr)
-	p.StoreTo(ptr, Opaque{Kind: "bigint", V: bigVal{t}}, "big")
+	p.StoreTo(ptr, Opaque{Kind: "bigint", V: bigVal{T: t}}, "big")
 	return v
 }
 
